@@ -163,3 +163,110 @@ theorem lockset_ordered (tr : List Ev) (hw : WellLocked tr) (x : Var) (g : Lock)
       cases ei <;> simp [Ev.accesses, Ev.tid] at ai heq
   exact HB.trans (HB.po hir hi hrel rfl) (HB.trans (HB.sw hr2 hrel hacq) (HB.po hr3 hacq hj rfl))
 end PxR
+
+/-! ## The lockset theorem in the form used by C13 -/
+namespace PxR
+
+def Ev.isWrite : Ev → Bool
+  | .wr _ _ => true
+  | _ => false
+
+/-- a data race: two accesses of one variable by different threads, at least one of them a write, not ordered by
+    happens-before (program order ∪ release→acquire, transitively closed) -/
+def HasRace (tr : List Ev) : Prop :=
+  ∃ i j ei ej x, i < j ∧ tr[i]? = some ei ∧ tr[j]? = some ej ∧ ei.accesses x ∧ ej.accesses x ∧
+    (ei.isWrite = true ∨ ej.isWrite = true) ∧ ei.tid ≠ ej.tid ∧ ¬ HB tr i j
+
+/-- the variable is not written in the trace (the trace is the execution after the object was published; writes during
+    construction precede publication) -/
+def ReadOnly (tr : List Ev) (x : Var) : Prop := ∀ (k : Nat) (t : Tid), tr[k]? ≠ some (Ev.wr t x)
+
+/-- lockset discipline ⇒ race freedom: every variable is either only read or always accessed under its guard -/
+theorem lockset_race_free (tr : List Ev) (hw : WellLocked tr) (guard : Var → Option Lock)
+    (h : ∀ x, ReadOnly tr x ∨ ∃ g, guard x = some g ∧ Guarded tr x g) : ¬ HasRace tr := by
+  rintro ⟨i, j, ei, ej, x, hij, hi, hj, ai, aj, hwr, hne, hnhb⟩
+  rcases h x with hro | ⟨g, _, hg⟩
+  · -- a write to a read-only variable
+    rcases hwr with hwi | hwj
+    · cases ei with
+      | wr t y =>
+        have : y = x := by
+          rcases ai with h | h <;> simp [Ev.tid] at h
+          exact h
+        subst this
+        exact hro i t hi
+      | _ => simp [Ev.isWrite] at hwi
+    · cases ej with
+      | wr t y =>
+        have : y = x := by
+          rcases aj with h | h <;> simp [Ev.tid] at h
+          exact h
+        subst this
+        exact hro j t hj
+      | _ => simp [Ev.isWrite] at hwj
+  · exact hnhb (lockset_ordered tr hw x g hg i j ei ej hij hi hj ai aj hne)
+
+/-- non-vacuity: a well-locked trace in which two threads write `x = 0` under lock `7` -/
+example : ¬ HasRace [.acq 1 7, .wr 1 0, .rel 1 7, .acq 2 7, .wr 2 0, .rel 2 7] := by
+  apply lockset_race_free _ _ (fun _ => some 7)
+  · intro x
+    by_cases hx : x = 0
+    · subst hx
+      refine Or.inr ⟨7, rfl, ?_⟩
+      intro k e hk ha
+      match k, hk with
+      | 0, hk => simp at hk; subst hk; simp [Ev.accesses, Ev.tid] at ha
+      | 1, hk => simp at hk; subst hk; decide
+      | 2, hk => simp at hk; subst hk; simp [Ev.accesses, Ev.tid] at ha
+      | 3, hk => simp at hk; subst hk; simp [Ev.accesses, Ev.tid] at ha
+      | 4, hk => simp at hk; subst hk; decide
+      | 5, hk => simp at hk; subst hk; simp [Ev.accesses, Ev.tid] at ha
+      | k+6, hk => simp at hk
+    · refine Or.inl ?_
+      unfold ReadOnly
+      intro k t hk
+      match k, hk with
+      | 0, hk => simp at hk
+      | 1, hk => simp at hk; exact hx hk.2.symm
+      | 2, hk => simp at hk
+      | 3, hk => simp at hk
+      | 4, hk => simp at hk; exact hx hk.2.symm
+      | 5, hk => simp at hk
+      | k+6, hk => simp at hk
+  · intro k e hk
+    match k, hk with
+    | 0, hk => simp at hk; subst hk; refine ⟨?_, ?_⟩ <;> intro t l h <;> cases h <;> decide
+    | 1, hk => simp at hk; subst hk; refine ⟨?_, ?_⟩ <;> intro t l h <;> cases h <;> decide
+    | 2, hk => simp at hk; subst hk; refine ⟨?_, ?_⟩ <;> intro t l h <;> cases h <;> decide
+    | 3, hk => simp at hk; subst hk; refine ⟨?_, ?_⟩ <;> intro t l h <;> cases h <;> decide
+    | 4, hk => simp at hk; subst hk; refine ⟨?_, ?_⟩ <;> intro t l h <;> cases h <;> decide
+    | 5, hk => simp at hk; subst hk; refine ⟨?_, ?_⟩ <;> intro t l h <;> cases h <;> decide
+    | k+6, hk => simp at hk
+
+/-- and the same two writes without the lock do race -/
+example : HasRace [.wr 1 0, .wr 2 0] := by
+  refine ⟨0, 1, .wr 1 0, .wr 2 0, 0, by decide, rfl, rfl, Or.inr rfl, Or.inr rfl, Or.inl rfl, by decide, ?_⟩
+  intro h
+  -- happens-before between positions 0 and 1 would need program order (different threads) or a release/acquire pair
+  have key : ∀ a b, HB [Ev.wr 1 0, Ev.wr 2 0] a b → False := by
+    intro a b hab
+    induction hab with
+    | po hlt hi hj ht =>
+      rename_i i j ei ej
+      match i, j, hi, hj with
+      | 0, 1, hi, hj => simp at hi hj; subst hi; subst hj; simp [Ev.tid] at ht
+      | 0, 0, _, _ => omega
+      | 1, 0, _, _ => omega
+      | 1, 1, _, _ => omega
+      | i+2, _, hi, _ => simp at hi
+      | 0, j+2, _, hj => simp at hj
+      | 1, j+2, _, hj => simp at hj
+    | sw hlt hi hj =>
+      rename_i i j t u l
+      match i, hi with
+      | 0, hi => simp at hi
+      | 1, hi => simp at hi
+      | i+2, hi => simp at hi
+    | trans _ _ ih1 _ => exact ih1
+  exact key 0 1 h
+end PxR
